@@ -194,9 +194,10 @@ class Ctx:
             if not deadlock:
                 cmd += ["-deadlock"]
             if simulate:
-                cmd += ["-simulate", "num=%d" % simulate, "-seed", str(self.seed)]
+                cmd += ["-simulate", "num=%d" % simulate]
                 if depth:
                     cmd += ["-depth", str(depth)]
+            cmd += ["-seed", str(self.seed)]
             if coverage:
                 cmd += ["-coverage", "1"]
             if extra:
